@@ -70,7 +70,7 @@ class C16(Check):
     ASSUMPTIONS = ['zlib / zstandard C libraries are trusted as codecs; the property is about rxsci\'s streaming wrappers',
                    'reference decoders: gzip.decompress and zstandard.ZstdDecompressor.stream_reader']
     ANCHORS = ['rxsci/compression/z.py', 'rxsci/compression/zstd.py']
-    REQUIRED_TAGS = ['gzip', 'zstd', 'empty-list', 'empty-chunk-in-input', 'over-one-buffer', 'rand', 'zeros', 'multi-MiB-compressible', 'over-4MiB', 'compressed-size-is-a-block-size', 'mixed-compressibility', 'thousands-of-small-chunks', 'chunks-as-bytearray', 'chunks-as-memoryview']
+    REQUIRED_TAGS = ['gzip', 'zstd', 'empty-list', 'empty-chunk-in-input', 'over-one-buffer', 'rand', 'zeros', 'multi-MiB-compressible', 'over-4MiB', 'compressed-size-is-a-block-size', 'mixed-compressibility', 'thousands-of-small-chunks', 'chunks-as-bytearray', 'chunks-as-memoryview', 'chunks-that-are-buffers-of-wider-items', 'wide-buffer-of-over-2**20-items']
     REQUIRED_OBSERVED = ['triples_of_staggered_subscriptions', 'truncations_checked', 'rechunkings_checked', 'reference_decodes', 'compressed_streams_of_exactly_a_block_size']
 
     _ops = {}
@@ -359,6 +359,26 @@ class C16(Check):
                     return out.fail('decompress-changed-the-chunks-it-was-given', chunk_type=ct)
                 if g.err is not None or not g.done or b''.join(bytes(x) for x in g.out) != data:
                     return out.fail('decompress-mismatch-on-%s-chunks' % ct, subscription=turn, error=repr(g.err), got_len=sum(len(x) for x in g.out), want_len=len(data))
+        # a chunk that is a buffer of WIDER items - a numpy float64 / int64 vector, an array('d') handed straight to the operator -
+        # is its bytes: len() of it counts items, a memoryview of it is indexed in items
+        if len(data) >= 16 and (len(data) <= (1 << 20) or len(data) >= 8 * (1 << 20) + 16) and not out.failures:
+            import array
+            import numpy
+            data8 = data[:len(data) // 8 * 8]
+            wide = [numpy.frombuffer(data8, dtype='<i8'), array.array('d', data8), numpy.frombuffer(data8, dtype='<f8')][(len(data) + len(comp)) % 3]
+            half = len(wide) // 2
+            g = subscribe(rx.from_([wide[:half], wide[half:]] if len(wide) <= (1 << 20) else [wide[:3], wide[3:]]).pipe(comp_op()), Snap())
+            out.observed['wide_item_buffers_compressed'] += 1
+            out.tags.append('chunks-that-are-buffers-of-wider-items')
+            if len(wide) > (1 << 20):
+                out.tags.append('wide-buffer-of-over-2**20-items')
+            try:
+                back = reference_decode(codec, b''.join(bytes(x) for x in g.out)) if g.err is None and g.done else None
+            except Exception as e:      # noqa: BLE001
+                back = repr(e)
+            if back != data8:
+                return out.fail('compress-of-a-buffer-of-wider-items-is-not-the-compression-of-its-bytes', error=repr(g.err), item_type=type(wide).__name__,
+                                items=len(wide), got_len=len(back) if isinstance(back, bytes) else None, want_len=len(data8))
         if len(data) < 8192 and not out.failures:
             from ..progs import twin_subscriptions
             t = twin_subscriptions(lambda src: src.pipe(decomp_op()), list(c.out), out, 'decompress', lambda xs: b''.join(xs))
